@@ -309,6 +309,7 @@ func (x *refTxn) mutate(c *Column, cur Value, mutator string, rawArg any) (Value
 			return cur, "", err
 		}
 		out := Value{}
+		big := false
 		for _, a := range cur.Set {
 			before := a.I
 			if a.T == 'i' {
@@ -334,7 +335,10 @@ func (x *refTxn) mutate(c *Column, cur Value, mutator string, rawArg any) (Value
 					return cur, "overflow", nil // not representable in 64 bits: a definite "range error"
 				}
 				if a.I > 1<<53 || a.I < -(1<<53) {
-					return cur, "range", nil
+					// fits 64 bits but not the harness's JSON numbers: the value
+					// is kept (a later mutation may still leave the integers for
+					// good) and the transaction is set aside if it ends up stored
+					big = true
 				}
 			} else {
 				switch mutator {
@@ -362,6 +366,9 @@ func (x *refTxn) mutate(c *Column, cur Value, mutator string, rawArg any) (Value
 		out.norm()
 		if len(out.Set) != n {
 			return cur, "dup-after-arith", nil
+		}
+		if big {
+			return out, "range", nil
 		}
 		return out, "", nil
 	case "insert":
@@ -483,6 +490,7 @@ func RefTransact(sch *Schema, before DBState, ops []Op, reported map[int]string)
 		}
 	}
 	detail := ""
+	bigStored := false // an integer beyond 2^53 was computed (and is stored unless the transaction fails)
 	fail := func(kind, class string) {
 		if x.undeclared && detail == "" {
 			detail = "named-uuid:undeclared"
@@ -696,7 +704,10 @@ func RefTransact(sch *Schema, before DBState, ops []Op, reported map[int]string)
 						detail = "mutate:range"
 						break
 					}
-					if edge != "" {
+					if edge == "range" {
+						// see mutate: decided when the transaction is over
+						bigStored = true
+					} else if edge != "" {
 						out.Edge = "mutate " + edge
 						bad = "error"
 						break
@@ -823,6 +834,9 @@ func RefTransact(sch *Schema, before DBState, ops []Op, reported map[int]string)
 	if out.OpFailed {
 		out.After = before.Clone()
 		return out
+	}
+	if bigStored && out.Edge == "" {
+		out.Edge = "mutate range"
 	}
 	// ---- commit ----
 	preGCStrongOK := x.strongOK()
